@@ -637,5 +637,19 @@ def run(ctx):
     eval_e2e(ctx, checks, "c11e2e", len(cases))
 
 
+def search(ctx, broken):
+    """A theorem, pin or correspondence broke and no oracle failed on the regular cases: run the end-to-end oracle on many more
+    requests (every package shape, sub-packages, dependency files, sanitised names, option strings)."""
+    cases = [c for c in (make_case("C11-search", i) for i in range(64)) if c]
+    run_e2e(ctx, cases, tag="c11search")
+
+
 def replay(ctx, rep):
+    c = rep.get("case", {})
+    if "request_b64" in c:
+        case = {"request_b64": c["request_b64"], "params": c.get("params", []), "yaml": c.get("yaml"), "tag": c.get("tag", "replay")}
+        checks = run_e2e(ctx, [case], tag="c11replay")
+        if checks:
+            eval_e2e(ctx, checks, "c11replay", 1)
+        return
     run(ctx)
